@@ -31,7 +31,11 @@ func (r *vc08Run) doBetween(op *vc08Op) string {
 	ctx, cancel := context.WithCancel(context.Background())
 	defer cancel()
 	innerRes := "not-run"
-	call := &vc08Call{id: 0, fail: "none", cancel: cancel}
+	fail := op.Fail
+	if fail == "" {
+		fail = "none"
+	}
+	call := &vc08Call{id: 0, fail: fail, cancel: cancel} // the OUTER call's write transaction may be made to fail at commit
 	call.afterRead = func() { innerRes = r.doAdd(in, 1) }
 	ctx = context.WithValue(ctx, vc08CallKey{}, call)
 	outer := vc08ErrClass(r.st.Add(ctx, k.tx, payload))
@@ -62,7 +66,7 @@ func (g *vc08Gen) between(label string) {
 	g.ops = append(g.ops, a)
 	n := 5 + g.rng.Intn(16)
 	for k := 0; k < n; k++ {
-		switch g.rng.Intn(7) {
+		switch g.rng.Intn(9) {
 		case 0:
 			op := g.valid(2)
 			g.ops = append(g.ops, op)
@@ -97,6 +101,21 @@ func (g *vc08Gen) between(label string) {
 			x := g.valid(2)
 			bad := g.newTx(x.Pi, x.Clk+2)
 			g.ops = append(g.ops, mk(x, bad, "nil"))
+			g.commit(x)
+		case 7: // the loser of the race fails to commit its EMPTY write transaction: rollback handler reloads, nothing may change
+			x := g.valid(2)
+			o := mk(x, x, []string{"nil", "ok"}[g.rng.Intn(2)])
+			o.Fail = []string{"fn", "ctx"}[g.rng.Intn(2)]
+			g.ops = append(g.ops, o)
+			g.commit(x)
+		case 8: // siblings, the outer call's write transaction (working on the state the inner call left) fails at commit
+			x := g.valid(2)
+			y := g.newTx(x.Pi, x.Clk)
+			o := mk(x, y, []string{"nil", "ok"}[g.rng.Intn(2)])
+			o.Fail = []string{"fn", "ctx"}[g.rng.Intn(2)]
+			g.ops = append(g.ops, o)
+			g.commit(y)
+			g.ops = append(g.ops, x) // offered again: stored
 			g.commit(x)
 		case 6: // the outer call extends the chain by one on top of what the inner call is about to store next to it
 			x := g.valid(1)
